@@ -1,6 +1,8 @@
 (* C03: a Sequence runs its commands strictly one after another, in order.
    Proofs over Model/Conc.v for ALL schedules: the log walk of Spec/ConcSpec.v
-   (seq_walk / sq_step) is tied to the state of every sequence goroutine. *)
+   (seq_walk / sq_step) is tied to the state of every sequence goroutine; a Send
+   that gives up after the cancellation (EDrop) counts like a receipt for the
+   walk, and happens only once ECancel has been logged. *)
 From Coq Require Import List Bool Arith Lia PeanoNat.
 Import ListNotations.
 From BT Require Import Model.Conc Spec.ConcSpec.
@@ -77,6 +79,51 @@ Proof. intros. unfold seq_msgs. apply flat_map_app. Qed.
 
 Lemma recv_from_app : forall w l1 l2, recv_from w (l1 ++ l2) = recv_from w l1 ++ recv_from w l2.
 Proof. intros. unfold recv_from. apply flat_map_app. Qed.
+
+Lemma sent_from_app : forall w l1 l2, sent_from w (l1 ++ l2) = sent_from w l1 ++ sent_from w l2.
+Proof. intros. unfold sent_from. apply flat_map_app. Qed.
+
+(* ------------------------------------------------------------------ *)
+(* no Send gives up before the cancellation *)
+
+Definition is_drop (e : ev) : bool := match e with EDrop _ _ => true | _ => false end.
+
+(* extending a good log with events that are not drops *)
+Lemma ndbc_app_nodrop : forall l es, no_drop_before_cancel l = true ->
+  Forall (fun e => is_drop e = false) es -> no_drop_before_cancel (l ++ es) = true.
+Proof.
+  induction l as [|e l IH]; intros es Hl Hes; simpl.
+  - induction es as [|e es IHes]; [reflexivity|]. inversion Hes as [|? ? He Hes']; subst.
+    destruct e; simpl in *; try discriminate; auto.
+  - destruct e; simpl in *; try discriminate; auto.
+Qed.
+
+(* extending a good log in which the cancellation has happened with anything *)
+Lemma ndbc_app_cancelled : forall l es, no_drop_before_cancel l = true ->
+  In ECancel l -> no_drop_before_cancel (l ++ es) = true.
+Proof.
+  induction l as [|e l IH]; intros es Hl Hin; simpl; [destruct Hin|].
+  destruct Hin as [->|Hin]; [reflexivity|].
+  destruct e; simpl in *; try discriminate; auto.
+Qed.
+
+Lemma ndbc_no_drop : forall l, no_drop_before_cancel l = true -> ~ In ECancel l ->
+  forall w m, ~ In (EDrop w m) l.
+Proof.
+  induction l as [|e l IH]; intros Hl Hnc w m Hin; [destruct Hin|].
+  assert (Hnc' : ~ In ECancel l) by (intros Hc; apply Hnc; right; exact Hc).
+  destruct Hin as [->|Hin]; [simpl in Hl; discriminate|].
+  destruct e; simpl in Hl; try discriminate; try (eapply IH; eauto; fail).
+  apply Hnc. left. reflexivity.
+Qed.
+
+Lemma sent_recv_no_drop : forall w l, (forall w' m, ~ In (EDrop w' m) l) -> sent_from w l = recv_from w l.
+Proof.
+  induction l as [|e l IH]; intros Hno; [reflexivity|].
+  assert (Hno' : forall w' m, ~ In (EDrop w' m) l) by (intros w' m Hc; apply (Hno w' m); right; exact Hc).
+  change (e :: l) with ([e] ++ l). rewrite sent_from_app, recv_from_app, (IH Hno'). f_equal.
+  destruct e; try reflexivity. exfalso. eapply Hno. left. reflexivity.
+Qed.
 
 (* ------------------------------------------------------------------ *)
 (* the walk, returning its final state *)
@@ -226,7 +273,13 @@ Section Walk.
       seq_trans k t {| s_rest := s_rest t; s_phase := SNext; s_done := false |} [ERecv (WSeq k) m]
   | T_grprecv : forall c ms j cj m, s_phase t = SGroup c ms -> nth_error ms j = Some (CSending cj m) ->
       seq_trans k t {| s_rest := s_rest t; s_phase := SGroup c (set_nth ms j (CDone cj)); s_done := false |}
-                [ERecv (WGrp k j) m].
+                [ERecv (WGrp k j) m]
+  (* after the cancellation: the blocked Send gives up, the message is dropped, the goroutine goes on *)
+  | T_drop : forall c m, s_phase t = SSending c m ->
+      seq_trans k t {| s_rest := s_rest t; s_phase := SNext; s_done := false |} [EDrop (WSeq k) m]
+  | T_grpdrop : forall c ms j cj m, s_phase t = SGroup c ms -> nth_error ms j = Some (CSending cj m) ->
+      seq_trans k t {| s_rest := s_rest t; s_phase := SGroup c (set_nth ms j (CDone cj)); s_done := false |}
+                [EDrop (WGrp k j) m].
 
   Lemma seq_trans_others : forall k t t' es, seq_trans k t t' es ->
     forall k', k' <> k -> Forall (fun e => of_seq k' e = false) es.
@@ -291,6 +344,22 @@ Section Walk.
       + cbn [walk_st of_seq sq_step]. rewrite Nat.eqb_refl, msg_eqb_refl. reflexivity.
       + split; [exact Hn|reflexivity].
     - (* message of a member taken *) rewrite H0 in Hp. destruct Hp as [Hok Hq].
+      assert (Hm : m = cres cj) by (exact (Forall_nth_error _ _ _ _ _ Hok H1)). subst m.
+      pose proof (upd_recv ms 0 j cj (cres cj)
+                   (fun c' b => if b && msg_eqb (cres cj) (cres c') then Some None else None) H1) as Hu.
+      simpl in Hu. rewrite msg_eqb_refl in Hu. specialize (Hu eq_refl).
+      destruct (open_from 0 ms) as [|o0 os] eqn:Eo; [simpl in Hu; discriminate|].
+      simpl in Hq. subst q.
+      cbn [walk_st of_seq sq_step]. rewrite Nat.eqb_refl, Hu.
+      exists r, (qgroup (open_from 0 (set_nth ms j (CDone cj)))). split.
+      + unfold qgroup. destruct (open_from 0 (set_nth ms j (CDone cj))); reflexivity.
+      + split; [exact Hn|]. simpl. split; [|reflexivity].
+        apply Forall_set_nth; [exact Hok|exact I].
+    - (* message of the element dropped *) rewrite H0 in Hp. destruct Hp as [Hq _]. subst q.
+      exists r, QIdle. split.
+      + cbn [walk_st of_seq sq_step]. rewrite Nat.eqb_refl, msg_eqb_refl. reflexivity.
+      + split; [exact Hn|reflexivity].
+    - (* message of a member dropped *) rewrite H0 in Hp. destruct Hp as [Hok Hq].
       assert (Hm : m = cres cj) by (exact (Forall_nth_error _ _ _ _ _ Hok H1)). subst m.
       pose proof (upd_recv ms 0 j cj (cres cj)
                    (fun c' b => if b && msg_eqb (cres cj) (cres c') then Some None else None) H1) as Hu.
@@ -409,10 +478,10 @@ Section Walk.
 
   Lemma sq_step_recv : forall k rest st e rest' st', of_seq k e = true ->
     sq_step cres rest st e = Some (rest', st') ->
-    recv_from (WSeq k) [e] ++ pend st' ++ plain (somes rest') = pend st ++ plain (somes rest).
+    sent_from (WSeq k) [e] ++ pend st' ++ plain (somes rest') = pend st ++ plain (somes rest).
   Proof.
     intros k rest st e rest' st' Hk H.
-    destruct st as [|c|m|[|[j0 c0] todo] all|open]; destruct e as [w m'|m' c'|  |c'|w c'|w c'| ]; simpl in H; try discriminate;
+    destruct st as [|c|m|[|[j0 c0] todo] all|open]; destruct e as [w m'|m' c'|  |c'|w c'|w c'| |w m'| | ]; simpl in H; try discriminate;
       destruct w as [i|i|k'|k' j]; try discriminate; simpl in Hk.
     - (* idle, start *) destruct (next_elem rest) as [[c0 r0]|] eqn:En; try discriminate.
       destruct (Nat.eqb c' c0) eqn:Ec; try discriminate. apply Nat.eqb_eq in Ec. subst c0.
@@ -428,29 +497,32 @@ Section Walk.
       + injection H as <- <-. reflexivity.
     - (* sending, received *) destruct (msg_eqb m m') eqn:Em; try discriminate. apply msg_eqb_eq in Em. subst m'.
       injection H as <- <-. simpl. rewrite Hk. reflexivity.
+    - (* sending, dropped *) destruct (msg_eqb m m') eqn:Em; try discriminate. apply msg_eqb_eq in Em. subst m'.
+      injection H as <- <-. simpl. rewrite Hk. reflexivity.
     - (* group start *)
       destruct (Nat.eqb j0 j && Nat.eqb c0 c'); try discriminate.
       destruct todo; injection H as <- <-; reflexivity.
     - (* member received *) destruct (upd_member j _ open) as [[|o os]|]; try discriminate; injection H as <- <-; reflexivity.
     - (* member ended *) destruct (upd_member j _ open) as [os|]; try discriminate; injection H as <- <-; reflexivity.
+    - (* member dropped *) destruct (upd_member j _ open) as [[|o os]|]; try discriminate; injection H as <- <-; reflexivity.
   Qed.
 
-  Lemma recv_other : forall k e, of_seq k e = false -> recv_from (WSeq k) [e] = [].
+  Lemma sent_other : forall k e, of_seq k e = false -> sent_from (WSeq k) [e] = [].
   Proof.
-    intros k e H. destruct e as [w m| | | |w c|w c| ]; try reflexivity.
-    destruct w; try reflexivity. simpl in *. rewrite H. reflexivity.
+    intros k e H. destruct e as [w m| | | |w c|w c| |w m| | ]; try reflexivity;
+      destruct w; try reflexivity; simpl in *; rewrite H; reflexivity.
   Qed.
 
   Lemma walk_recv : forall k log rest st r q, walk_st k rest st log = Some (r, q) ->
-    recv_from (WSeq k) log ++ pend q ++ plain (somes r) = pend st ++ plain (somes rest).
+    sent_from (WSeq k) log ++ pend q ++ plain (somes r) = pend st ++ plain (somes rest).
   Proof.
     induction log as [|e log IH]; intros rest st r q H; simpl in H.
     - injection H as <- <-. reflexivity.
-    - change (e :: log) with ([e] ++ log). rewrite recv_from_app, <- app_assoc.
+    - change (e :: log) with ([e] ++ log). rewrite sent_from_app, <- app_assoc.
       destruct (of_seq k e) eqn:Ek.
       + destruct (sq_step cres rest st e) as [[r' st']|] eqn:Es; try discriminate.
         rewrite (IH _ _ _ _ H). eapply sq_step_recv; eauto.
-      + rewrite (recv_other _ _ Ek). simpl. eapply IH; eauto.
+      + rewrite (sent_other _ _ Ek). simpl. eapply IH; eauto.
   Qed.
 
   Lemma seq_starts_app : forall k l1 l2, seq_starts k (l1 ++ l2) = seq_starts k l1 ++ seq_starts k l2.
@@ -461,7 +533,7 @@ Section Walk.
     seq_starts k [e] ++ somes rest' = somes rest.
   Proof.
     intros k rest st e rest' st' Hk H.
-    destruct st as [|c|m|[|[j0 c0] todo] all|open]; destruct e as [w m'|m' c'|  |c'|w c'|w c'| ]; simpl in H; try discriminate;
+    destruct st as [|c|m|[|[j0 c0] todo] all|open]; destruct e as [w m'|m' c'|  |c'|w c'|w c'| |w m'| | ]; simpl in H; try discriminate;
       destruct w as [i|i|k'|k' j]; try discriminate; simpl in Hk.
     - destruct (next_elem rest) as [[c0 r0]|] eqn:En; try discriminate.
       destruct (Nat.eqb c' c0) eqn:Ec; try discriminate. apply Nat.eqb_eq in Ec. subst c0.
@@ -470,15 +542,17 @@ Section Walk.
       destruct (cres c) as [| tg | | cs | cs]; simpl in H; try (injection H as <- <-; reflexivity).
       destruct (combine _ _); injection H as <- <-; reflexivity.
     - destruct (msg_eqb m m'); try discriminate. injection H as <- <-. reflexivity.
+    - destruct (msg_eqb m m'); try discriminate. injection H as <- <-. reflexivity.
     - destruct (Nat.eqb j0 j && Nat.eqb c0 c'); try discriminate.
       destruct todo; injection H as <- <-; reflexivity.
     - destruct (upd_member j _ open) as [[|o os]|]; try discriminate; injection H as <- <-; reflexivity.
     - destruct (upd_member j _ open) as [os|]; try discriminate; injection H as <- <-; reflexivity.
+    - destruct (upd_member j _ open) as [[|o os]|]; try discriminate; injection H as <- <-; reflexivity.
   Qed.
 
   Lemma starts_other : forall k e, of_seq k e = false -> seq_starts k [e] = [].
   Proof.
-    intros k e H. destruct e as [w m| | | |w c|w c| ]; try reflexivity.
+    intros k e H. destruct e as [w m| | | |w c|w c| |w m| | ]; try reflexivity.
     destruct w; try reflexivity. simpl in *. rewrite H. reflexivity.
   Qed.
 
@@ -500,11 +574,11 @@ Section Walk.
   Qed.
 
   (* what a successful walk says about order: the elements started are a prefix of the non-nil elements, and
-     the messages taken from the sequence goroutine itself are the non-batch results of the started elements,
-     in that order, all but possibly the last one *)
+     the messages the sequence goroutine itself got rid of (taken by the loop, or dropped after the cancellation)
+     are the non-batch results of the started elements, in that order, all but possibly the last one *)
   Lemma walk_order : forall k cs log r q, walk_st k cs QIdle log = Some (r, q) ->
     seq_starts k log ++ somes r = somes cs /\
-    recv_from (WSeq k) log ++ pend q = plain (seq_starts k log).
+    sent_from (WSeq k) log ++ pend q = plain (seq_starts k log).
   Proof.
     intros k cs log r q H. pose proof (walk_starts _ _ _ _ _ _ H) as Hs. split; [exact Hs|].
     pose proof (walk_recv _ _ _ _ _ _ H) as Hr. simpl in Hr. rewrite <- Hs, plain_app in Hr.
@@ -513,24 +587,32 @@ Section Walk.
 
   (* ---- what must have been received before the walk is back between elements ---- *)
 
+  (* the message got through: the loop took it, or (after the cancellation) the Send gave up *)
+  Definition thru (w : who) (m : msg) (l : list ev) : Prop := In (ERecv w m) l \/ In (EDrop w m) l.
+
+  Lemma thru_mono : forall w m l l', (forall x, In x l -> In x l') -> thru w m l -> thru w m l'.
+  Proof. intros w m l l' Hi [H|H]; [left|right]; auto. Qed.
+
+  Lemma thru_cons : forall w m e l, thru w m l -> thru w m (e :: l).
+  Proof. intros w m e l H. eapply thru_mono; [|exact H]. intros x Hx. right. exact Hx. Qed.
+
   Definition need (k : nat) (st : sq_state) (l : list ev) : Prop :=
     match st with
     | QIdle => True
     | QRunning c =>
       match cres c with
-      | MBatch cs => forall j cj, nth_error (somes cs) j = Some cj -> In (ERecv (WGrp k j) (cres cj)) l
-      | m => In (ERecv (WSeq k) m) l
+      | MBatch cs => forall j cj, nth_error (somes cs) j = Some cj -> thru (WGrp k j) (cres cj) l
+      | m => thru (WSeq k) m l
       end
-    | QSending m => In (ERecv (WSeq k) m) l
-    | QGroupStart _ all => forall j c, In (j, c) all -> In (ERecv (WGrp k j) (cres c)) l
-    | QGroup open => forall j c b, In (j, c, b) open -> In (ERecv (WGrp k j) (cres c)) l
+    | QSending m => thru (WSeq k) m l
+    | QGroupStart _ all => forall j c, In (j, c) all -> thru (WGrp k j) (cres c) l
+    | QGroup open => forall j c b, In (j, c, b) open -> thru (WGrp k j) (cres c) l
     end.
 
   Lemma need_mono : forall k st l l', (forall x, In x l -> In x l') -> need k st l -> need k st l'.
   Proof.
-    intros k st l l' Hi H. destruct st as [|c|m|todo all|open]; simpl in *; auto.
-    - destruct (cres c); auto.
-    - intros; eauto.
+    intros k st l l' Hi H. destruct st as [|c|m|todo all|open]; simpl in *; auto;
+      try destruct (cres c); intros; eapply thru_mono; eauto.
   Qed.
 
   Lemma upd_member_In : forall j f open open', upd_member j f open = Some open' ->
@@ -558,36 +640,44 @@ Section Walk.
   Proof.
     intros k rest st e rest' st' l Hk H Hn.
     destruct st as [|c|m|[|[j0 c0] todo] all|open]; [exact I| | | | |];
-      destruct e as [w m'|m' c'|  |c'|w c'|w c'| ]; simpl in H; try discriminate;
+      destruct e as [w m'|m' c'|  |c'|w c'|w c'| |w m'| | ]; simpl in H; try discriminate;
       destruct w as [i|i|k'|k' j]; try discriminate; simpl in Hk; apply Nat.eqb_eq in Hk; subst k'.
     - (* running, end *) destruct (Nat.eqb c c') eqn:Ec; try discriminate. simpl.
       destruct (cres c) as [| tg | | cs | cs] eqn:Er; simpl in H.
-      + injection H as <- <-. right. exact Hn.
-      + injection H as <- <-. right. exact Hn.
-      + injection H as <- <-. right. exact Hn.
-      + intros j cj Hj. right. pose proof (In_combine_seq _ _ 0 _ _ Hj) as Hin. simpl in Hin.
+      + injection H as <- <-. apply thru_cons. exact Hn.
+      + injection H as <- <-. apply thru_cons. exact Hn.
+      + injection H as <- <-. apply thru_cons. exact Hn.
+      + intros j cj Hj. apply thru_cons. pose proof (In_combine_seq _ _ 0 _ _ Hj) as Hin. simpl in Hin.
         destruct (combine (seq 0 (length (somes cs))) (somes cs)) as [|jc0 ms0] eqn:Ems; [destruct Hin|].
         injection H as <- <-. simpl in Hn. apply Hn. exact Hin.
-      + injection H as <- <-. right. exact Hn.
+      + injection H as <- <-. apply thru_cons. exact Hn.
     - (* sending, received *) destruct (msg_eqb m m') eqn:Em; try discriminate. apply msg_eqb_eq in Em. subst m'.
-      simpl. left. reflexivity.
+      left. left. reflexivity.
+    - (* sending, dropped *) destruct (msg_eqb m m') eqn:Em; try discriminate. apply msg_eqb_eq in Em. subst m'.
+      right. left. reflexivity.
     - (* group start *)
       destruct (Nat.eqb j0 j && Nat.eqb c0 c'); try discriminate.
-      simpl. intros j1 c1 Hin. right.
+      simpl. intros j1 c1 Hin. apply thru_cons.
       destruct todo; injection H as <- <-; simpl in Hn.
       + apply (Hn j1 c1 false). apply in_map_iff. exists (j1, c1). split; [reflexivity|exact Hin].
       + apply Hn. exact Hin.
     - (* member received *) simpl. intros j0 c0 b0 Hin.
       destruct (upd_member j _ open) as [open'|] eqn:Eu; try discriminate.
       destruct (upd_member_In _ _ _ _ Eu _ _ _ Hin) as [Hl|(-> & r & Hr & Hm)].
-      + right. destruct open' as [|o os]; [destruct Hl|]. injection H as <- <-. simpl in Hn. eapply Hn. exact Hl.
-      + left. destruct b0; simpl in Hr; try discriminate.
+      + apply thru_cons. destruct open' as [|o os]; [destruct Hl|]. injection H as <- <-. simpl in Hn. eapply Hn. exact Hl.
+      + left. left. destruct b0; simpl in Hr; try discriminate.
         destruct (msg_eqb m' (cres c0)) eqn:Em; try discriminate. apply msg_eqb_eq in Em. subst m'. reflexivity.
-    - (* member ended *) simpl. intros j0 c0 b0 Hin. right.
+    - (* member ended *) simpl. intros j0 c0 b0 Hin. apply thru_cons.
       destruct (upd_member j _ open) as [open'|] eqn:Eu; try discriminate. injection H as <- <-. simpl in Hn.
       destruct (upd_member_In _ _ _ _ Eu _ _ _ Hin) as [Hl|(-> & r & Hr & Hm)].
       + eapply Hn. exact Hl.
       + destruct (Nat.eqb c' c0 && negb b0); try discriminate. injection Hr as <-. eapply Hn. exact Hm.
+    - (* member dropped *) simpl. intros j0 c0 b0 Hin.
+      destruct (upd_member j _ open) as [open'|] eqn:Eu; try discriminate.
+      destruct (upd_member_In _ _ _ _ Eu _ _ _ Hin) as [Hl|(-> & r & Hr & Hm)].
+      + apply thru_cons. destruct open' as [|o os]; [destruct Hl|]. injection H as <- <-. simpl in Hn. eapply Hn. exact Hl.
+      + right. left. destruct b0; simpl in Hr; try discriminate.
+        destruct (msg_eqb m' (cres c0)) eqn:Em; try discriminate. apply msg_eqb_eq in Em. subst m'. reflexivity.
   Qed.
 
   Lemma start_from_idle : forall k rest st c rest' st',
@@ -611,7 +701,7 @@ Section Walk.
       + eapply need_mono; [|eapply IH; eauto]. intros x Hx. right. exact Hx.
   Qed.
 
-  (* between two consecutive starts of sequence goroutine k, everything the first element produced was received *)
+  (* between two consecutive starts of sequence goroutine k, everything the first element produced got through *)
   Lemma walk_between_starts : forall k cs l1 c1 l1' c2 l2 r q,
     walk_st k cs QIdle (l1 ++ EStart (WSeq k) c1 :: l1' ++ EStart (WSeq k) c2 :: l2) = Some (r, q) ->
     (forall c, ~ In (EStart (WSeq k) c) l1') ->
@@ -667,7 +757,7 @@ Section Model.
 
   Lemma step_shape : forall s l s', step M upd cres s l = Some s' -> shapeA s s' \/ shapeB s s' \/ shapeC s s'.
   Proof.
-    intros s l s' H. destruct l as [w| | | |j|k|k|k j| | | ]; simpl in H.
+    intros s l s' H. destruct l as [w| | | |j|k|k|k j| | | |w| | | ]; simpl in H.
     - (* LbRecv *)
       destruct (c_loop s) eqn:EL; try discriminate.
       destruct (offer M s w) as [m|] eqn:EO; try discriminate. injection H as <-.
@@ -737,10 +827,32 @@ Section Model.
       destruct (nth_error ms j) as [[cj|cj m1|cj]|] eqn:Ej; try discriminate. injection H as <-.
       shB k t {| s_rest := s_rest t; s_phase := SGroup c (set_nth ms j (CSending cj (cres cj))); s_done := false |} [EEnd (WGrp k j) cj].
       eapply T_grpfin; eauto.
-    - (* LbCancel *) destruct (c_ctx s); try discriminate. injection H as <-. shA (@nil ev).
+    - (* LbCancel *) destruct (c_ctx s); try discriminate. injection H as <-. shA [ECancel].
     - (* LbDispExit *) destruct (c_ctx s && c_disp s); try discriminate. injection H as <-. shA (@nil ev).
     - (* LbLoopExit *)
       destruct (c_ctx s); try discriminate. destruct (c_loop s); try discriminate; injection H as <-; shA [EExit].
+    - (* LbGiveUp *)
+      destruct (c_ctx s); try discriminate.
+      destruct (offer M s w) as [m|] eqn:EO; try discriminate. injection H as <-.
+      destruct w as [i|j|k|k j]; simpl in EO |- *.
+      + destruct (nth_error (c_senders s) i) as [[|m1 rest]|]; try discriminate. shA [EDrop (WSender i) m].
+      + destruct (nth_error (c_cmds s) j) as [[c|c m1|c]|]; try discriminate. shA [EDrop (WCmd j) m].
+      + destruct (nth_error (c_seqs s) k) as [t|] eqn:En; try discriminate.
+        destruct (s_phase t) as [|c|c m1|c ms] eqn:Ep; try discriminate. injection EO as ->.
+        shB k t {| s_rest := s_rest t; s_phase := SNext; s_done := false |} [EDrop (WSeq k) m].
+        eapply T_drop; eauto.
+      + destruct (nth_error (c_seqs s) k) as [t|] eqn:En; try discriminate.
+        destruct (s_phase t) as [|c|c m1|c ms] eqn:Ep; try discriminate.
+        destruct (nth_error ms j) as [[cj|cj m1|cj]|] eqn:Ej; try discriminate. injection EO as ->.
+        shB k t {| s_rest := s_rest t; s_phase := SGroup c (set_nth ms j (CDone cj)); s_done := false |} [EDrop (WGrp k j) m].
+        eapply T_grpdrop; eauto.
+    - (* LbHandInit *)
+      destruct (c_ifw s) as [c|]; try discriminate. destruct (c_disp s); try discriminate. injection H as <-.
+      shA [EHand c; EStart (WCmd (length (c_cmds s))) c].
+    - (* LbIfwGiveUp *)
+      destruct (c_ifw s) as [c|]; try discriminate. destruct (c_ctx s); try discriminate. injection H as <-. shA (@nil ev).
+    - (* LbLoopFail *)
+      destruct (c_loop s); try discriminate; injection H as <-; shA [EFail; EExit].
   Qed.
 
   Lemma Inv_step : forall s l s', Inv s -> step M upd cres s l = Some s' -> Inv s'.
@@ -791,10 +903,121 @@ Section Model.
     apply seq_walk_iff. rewrite Hw. discriminate.
   Qed.
 
+  (* ---- the cancellation and the log: c_ctx holds exactly when ECancel has been logged, and a Send gives up
+     (EDrop) only then ---- *)
+
+  Lemma took_log : forall s w, c_log (took M s w) = c_log s.
+  Proof.
+    intros s w. destruct w; simpl;
+      repeat match goal with |- context [match ?x with _ => _ end] => destruct x end;
+      simpl; rewrite ?app_nil_r; reflexivity.
+  Qed.
+
+  Lemma took_ctx : forall s w, c_ctx (took M s w) = c_ctx s.
+  Proof.
+    intros s w. destruct w; simpl;
+      repeat match goal with |- context [match ?x with _ => _ end] => destruct x end;
+      reflexivity.
+  Qed.
+
+  Definition CInv (s : cstate M) : Prop :=
+    no_drop_before_cancel (c_log s) = true /\ (c_ctx s = true <-> In ECancel (c_log s)).
+
+  (* every step either leaves c_ctx alone, logs no ECancel, and logs an EDrop only if c_ctx holds,
+     or it is the cancellation *)
+  Definition ctx_shape (s s' : cstate M) : Prop :=
+    exists es, c_log s' = c_log s ++ es /\
+      ((c_ctx s' = c_ctx s /\ ~ In ECancel es /\ (c_ctx s = true \/ Forall (fun e => is_drop e = false) es))
+       \/ (c_ctx s = false /\ c_ctx s' = true /\ es = [ECancel])).
+
+  Lemma grp_starts_clean : forall k (l : list (nat * cmdid)),
+    ~ In ECancel (map (fun jc : nat * cmdid => EStart (WGrp k (fst jc)) (snd jc)) l) /\
+    Forall (fun e => is_drop e = false) (map (fun jc : nat * cmdid => EStart (WGrp k (fst jc)) (snd jc)) l).
+  Proof.
+    intros k l. induction l as [|x l [IH1 IH2]]; simpl; split; auto.
+    intros [H|H]; [discriminate|auto].
+  Qed.
+
+  Ltac destr_in H :=
+    repeat match type of H with
+           | context [match ?x with _ => _ end] => destruct x eqn:?; try discriminate
+           end.
+
+  Ltac ctx_fin :=
+    unfold ctx_shape; simpl; rewrite ?took_log, ?took_ctx, ?app_nil_r, <- ?app_assoc;
+    eexists; split; [first [reflexivity | symmetry; apply app_nil_r]|];
+    first [ left; split; [first [reflexivity | symmetry; assumption]|]; split; [simpl; intuition discriminate|];
+            first [left; assumption | right; repeat constructor]
+          | right; repeat split; first [assumption | reflexivity] ].
+
+  Lemma step_ctx : forall s l s', step M upd cres s l = Some s' -> ctx_shape s s'.
+  Proof.
+    intros s l s' H. destruct l as [w| | | |j|k|k|k j| | | |w| | | ]; simpl in H.
+    - destr_in H; injection H as <-; ctx_fin.
+    - destr_in H; injection H as <-; ctx_fin.
+    - destr_in H; injection H as <-; ctx_fin.
+    - destr_in H; injection H as <-; ctx_fin.
+    - destr_in H; injection H as <-; ctx_fin.
+    - destr_in H; injection H as <-; ctx_fin.
+    - (* LbSeqFinish *)
+      destruct (nth_error (c_seqs s) k) as [t|]; try discriminate.
+      destruct (s_phase t) as [|c|c m1|c ms]; try discriminate.
+      destruct (cres c) as [|tg| |cs|cs]; injection H as <-; try ctx_fin.
+      unfold ctx_shape; simpl. eexists; split; [reflexivity|]. left. split; [reflexivity|].
+      destruct (grp_starts_clean k (combine (seq 0 (length (somes cs))) (somes cs))) as [G1 G2].
+      split; [intros [Hc|Hc]; [discriminate|exact (G1 Hc)]|]. right. constructor; [reflexivity|exact G2].
+    - destr_in H; injection H as <-; ctx_fin.
+    - (* LbCancel *) destruct (c_ctx s) eqn:EC; try discriminate. injection H as <-.
+      exists [ECancel]. split; [reflexivity|]. right. auto.
+    - (* LbDispExit *) destruct (c_ctx s) eqn:EC; simpl in H; try discriminate.
+      destruct (c_disp s); try discriminate. injection H as <-.
+      exists []. split; [symmetry; apply app_nil_r|]. left. simpl. rewrite EC. auto.
+    - destr_in H; injection H as <-; ctx_fin.
+    - destr_in H; injection H as <-; ctx_fin.
+    - destr_in H; injection H as <-; ctx_fin.
+    - destr_in H; injection H as <-; ctx_fin.
+    - destr_in H; injection H as <-; ctx_fin.
+  Qed.
+
+  Lemma CInv_step : forall s l s', CInv s -> step M upd cres s l = Some s' -> CInv s'.
+  Proof.
+    intros s l s' [I1 I2] H. destruct (step_ctx _ _ _ H) as (es & E & [(Ec & Hnc & Hd)|(Ec & Ec' & ->)]); unfold CInv; rewrite E.
+    - split.
+      + destruct Hd as [Hd|Hd]; [apply ndbc_app_cancelled; [exact I1|apply I2; exact Hd]|apply ndbc_app_nodrop; assumption].
+      + rewrite Ec, I2. split; [intros Hi; apply in_or_app; left; exact Hi|].
+        intros Hi. apply in_app_or in Hi. destruct Hi as [Hi|Hi]; [exact Hi|contradiction].
+    - split.
+      + apply ndbc_app_nodrop; [exact I1|repeat constructor].
+      + split; [intros _; apply in_or_app; right; left; reflexivity|intros _; exact Ec'].
+  Qed.
+
+  Lemma CInv_reach : forall s, reach s -> CInv s.
+  Proof.
+    intros s [sched ->].
+    assert (H0 : CInv (init_state M m0 init_cmd scripts)).
+    { split; [reflexivity|]. simpl. split; [discriminate|intros []]. }
+    revert H0. generalize (init_state M m0 init_cmd scripts).
+    induction sched as [|l sched IH]; intros s HI; simpl; [exact HI|].
+    apply IH. unfold run1. destruct (step M upd cres s l) as [s'|] eqn:E; [|exact HI]. eapply CInv_step; eauto.
+  Qed.
+
   Lemma C03_sequences_ok_proof : forall sched,
     let s := run M upd cres (init_state M m0 init_cmd scripts) sched in
-    sequences_ok cres (c_log s) = true.
-  Proof. intros sched s. apply sequences_ok_reach. exists sched. reflexivity. Qed.
+    sequences_ok cres (c_log s) = true /\ no_drop_before_cancel (c_log s) = true.
+  Proof.
+    intros sched s. assert (Hr : reach s) by (exists sched; reflexivity).
+    split; [apply sequences_ok_reach; exact Hr|apply (CInv_reach s Hr)].
+  Qed.
+
+  (* the invariant behind no_drop_before_cancel *)
+  Lemma C03_cancel_logged_proof : forall sched,
+    let s := run M upd cres (init_state M m0 init_cmd scripts) sched in
+    c_ctx s = true <-> In ECancel (c_log s).
+  Proof. intros sched s. apply (CInv_reach s). exists sched. reflexivity. Qed.
+
+  (* as long as the program has not begun terminating nothing is dropped *)
+  Lemma running_no_drop : forall s, reach s -> ~ In ECancel (c_log s) -> forall w m, ~ In (EDrop w m) (c_log s).
+  Proof. intros s Hr Hnc. apply ndbc_no_drop; [apply (CInv_reach s Hr)|exact Hnc]. Qed.
 
   (* the bookkeeping the statement of 1 rests on *)
   Lemma C03_seq_threads_proof : forall sched,
@@ -813,8 +1036,9 @@ Section Model.
       c_log s = l1 ++ EStart (WSeq k) c1 :: l1' ++ EStart (WSeq k) c2 :: l2 ->
       (forall c, ~ In (EStart (WSeq k) c) l1') ->
       match cres c1 with
-      | MBatch cs => forall j cj, nth_error (somes cs) j = Some cj -> In (ERecv (WGrp k j) (cres cj)) l1'
-      | m => In (ERecv (WSeq k) m) l1'
+      | MBatch cs => forall j cj, nth_error (somes cs) j = Some cj ->
+                       In (ERecv (WGrp k j) (cres cj)) l1' \/ In (EDrop (WGrp k j) (cres cj)) l1'
+      | m => In (ERecv (WSeq k) m) l1' \/ In (EDrop (WSeq k) m) l1'
       end.
   Proof.
     intros sched s k l1 c1 l1' c2 l2 Hlog Hno.
@@ -827,13 +1051,40 @@ Section Model.
     exact (walk_between_starts cres k cs l1 c1 l1' c2 l2 r q Hw Hno).
   Qed.
 
+  (* 2, while the program has not begun terminating: the next element starts only after the loop has RECEIVED
+     the previous element's message (every message of its batch) *)
+  Lemma C03_next_after_receipt_running_proof : forall sched,
+    let s := run M upd cres (init_state M m0 init_cmd scripts) sched in
+    ~ In ECancel (c_log s) ->
+    forall k l1 c1 l1' c2 l2,
+      c_log s = l1 ++ EStart (WSeq k) c1 :: l1' ++ EStart (WSeq k) c2 :: l2 ->
+      (forall c, ~ In (EStart (WSeq k) c) l1') ->
+      match cres c1 with
+      | MBatch cs => forall j cj, nth_error (somes cs) j = Some cj -> In (ERecv (WGrp k j) (cres cj)) l1'
+      | m => In (ERecv (WSeq k) m) l1'
+      end.
+  Proof.
+    intros sched s Hnc k l1 c1 l1' c2 l2 Hlog Hno.
+    assert (Hr : reach s) by (exists sched; reflexivity).
+    pose proof (C03_next_after_receipt_proof sched k l1 c1 l1' c2 l2 Hlog Hno) as H.
+    assert (Hnd : forall w m, ~ In (EDrop w m) l1').
+    { intros w m Hin. apply (running_no_drop s Hr Hnc w m). fold s in Hlog. rewrite Hlog.
+      apply in_or_app. right. right. apply in_or_app. left. exact Hin. }
+    fold s in H. destruct (cres c1) as [|tg| |cs|cs].
+    - destruct H as [H|H]; [exact H|destruct (Hnd _ _ H)].
+    - destruct H as [H|H]; [exact H|destruct (Hnd _ _ H)].
+    - destruct H as [H|H]; [exact H|destruct (Hnd _ _ H)].
+    - intros j cj Hj. destruct (H j cj Hj) as [H'|H']; [exact H'|destruct (Hnd _ _ H')].
+    - destruct H as [H|H]; [exact H|destruct (Hnd _ _ H)].
+  Qed.
+
   (* 3 *)
   Lemma C03_update_order_proof : forall sched,
     let s := run M upd cres (init_state M m0 init_cmd scripts) sched in
     forall k cs, nth_error (seq_msgs (c_log s)) k = Some cs ->
       exists rest pending,
         seq_starts k (c_log s) ++ somes rest = somes cs /\
-        recv_from (WSeq k) (c_log s) ++ pending = plain cres (seq_starts k (c_log s)) /\
+        sent_from (WSeq k) (c_log s) ++ pending = plain cres (seq_starts k (c_log s)) /\
         length pending <= 1.
   Proof.
     intros sched s k cs Hcs.
@@ -841,6 +1092,23 @@ Section Model.
     destruct (reach_walk s Hr k cs Hcs) as (t & r & q & _ & Hw & _).
     destruct (walk_order cres _ _ _ _ _ Hw) as [H1 H2].
     exists r, (pend cres q). split; [exact H1|]. split; [exact H2|apply pend_short].
+  Qed.
+
+  (* 3, while the program has not begun terminating: all of them were received by the loop *)
+  Lemma C03_update_order_running_proof : forall sched,
+    let s := run M upd cres (init_state M m0 init_cmd scripts) sched in
+    ~ In ECancel (c_log s) ->
+    forall k cs, nth_error (seq_msgs (c_log s)) k = Some cs ->
+      exists rest pending,
+        seq_starts k (c_log s) ++ somes rest = somes cs /\
+        recv_from (WSeq k) (c_log s) ++ pending = plain cres (seq_starts k (c_log s)) /\
+        length pending <= 1.
+  Proof.
+    intros sched s Hnc k cs Hcs.
+    assert (Hr : reach s) by (exists sched; reflexivity).
+    destruct (C03_update_order_proof sched k cs Hcs) as (rest & pending & H1 & H2 & H3).
+    exists rest, pending. split; [exact H1|]. split; [|exact H3].
+    fold s in H2. rewrite <- (sent_recv_no_drop (WSeq k) (c_log s) (running_no_drop s Hr Hnc)). exact H2.
   Qed.
 
   (* a sequence goroutine that is done stays between elements: in every other phase it is not done *)
@@ -869,13 +1137,15 @@ Section Model.
     (forall c, s_phase t = SRunning c -> step M upd cres s (LbSeqFinish k) <> None) /\
     (forall c m, s_phase t = SSending c m -> c_loop s = LIdle -> step M upd cres s (LbRecv (WSeq k)) <> None) /\
     (forall c ms, s_phase t = SGroup c ms -> s_done t = false -> all_done ms = true ->
-                  step M upd cres s (LbSeqStep k) <> None).
+                  step M upd cres s (LbSeqStep k) <> None) /\
+    (forall c m, s_phase t = SSending c m -> c_ctx s = true -> step M upd cres s (LbGiveUp (WSeq k)) <> None).
   Proof.
     intros s k t Hn. repeat split.
     - intros Hp Hd. simpl. rewrite Hn, Hd, Hp. destruct (s_rest t) as [|[c|] r]; discriminate.
     - intros c Hp. simpl. rewrite Hn, Hp. destruct (cres c); discriminate.
     - intros c m Hp Hl. simpl. rewrite Hl, Hn, Hp. discriminate.
     - intros c ms Hp Hd Ha. simpl. rewrite Hn, Hd, Hp, Ha. discriminate.
+    - intros c m Hp Hc. simpl. rewrite Hc, Hn, Hp. discriminate.
   Qed.
 
   (* 4(d) without the "not done" hypothesis, in every reachable state *)
